@@ -1,13 +1,16 @@
 #!/bin/bash
 # Build the verification framework from files on disk only (offline).
-set -e
 cd "$(dirname "$0")"
 export PIP_NO_INDEX=1
 mkdir -p coq/Gen coq/Corr work replays evidence
 # 1. regenerate the translated definitions from /repo's current working tree
-/venv/bin/python -m lib.py2coq.main all || { echo "translator failed at setup (checks will report it)"; }
-# 2. build every library, proof and property file
-cd coq
-coq_makefile -f _CoqProject -o Makefile > /dev/null
-timeout 3000 make -j16 -k 2>&1 | grep -v "conda.cli" | tail -40
-echo "setup done"
+/venv/bin/python -m lib.py2coq.main all 2>&1 | grep -v "conda.cli" || true
+# 2. build every library, proof and property file (-k: one broken file must not hide the others; each check rebuilds what it needs)
+/venv/bin/python -c "
+from lib import common
+common.ensure_makefile()
+ok, log = common.coq_make(['-k', 'all'], timeout=3000)
+print(log[-3000:])
+print('setup: build', 'ok' if ok else 'INCOMPLETE (see above)')
+"
+exit 0
